@@ -406,9 +406,39 @@ def remove_cons_vars_from_problem(
        The variables and constraints to remove from the model.
 
     """
+    context = get_context(model)
+    if context:
+        # Adding a variable again does not bring back its column, so the coefficients
+        # it has in the constraints that stay are recorded and put back.
+        solver = model.solver
+        items = what if isinstance(what, (list, tuple, set)) else [what]
+        columns = []
+        for item in items:
+            if isinstance(item, optlang.interface.Variable) and item.problem is solver:
+                column = {}
+                for constraint in solver.constraints:
+                    coefficient = constraint.get_linear_coefficients([item])[item]
+                    if coefficient != 0:
+                        column[constraint.name] = coefficient
+                if column:
+                    columns.append((item, column))
+
+        def restore_columns():
+            current = model.solver
+            current.update()
+            for variable, column in columns:
+                for name, coefficient in column.items():
+                    if name in current.constraints:
+                        current.constraints[name].set_linear_coefficients(
+                            {variable: coefficient}
+                        )
+
+        if columns:
+            # recorded first, hence run after the variables have been added again
+            context(restore_columns)
+
     model.solver.remove(what)
 
-    context = get_context(model)
     if context:
         context(partial(model.solver.add, what))
 
